@@ -73,7 +73,7 @@ def geo_sig(e, fine=True):
     if k == "trans":
         return "trans~%s(%s)" % (dep(e["t"]), geo_sig(e["d"], fine))
     if k == "rot":
-        kind = "q" if e["m"] == "quarter" else ("3" if e["m"] in ("z345", "x345", "y90", "zx") else ("" if e["m"] in ("r0", "r90", "r180", "r270") or not fine else "*"))
+        kind = "q" if e["m"] == "quarter" else ("3" + e["m"] if e["m"] in ("z345", "x345", "y90", "zx") else ("" if e["m"] in ("r0", "r90", "r180", "r270") or not fine else "*"))
         return "rot%s~%s(%s)" % (kind, dep(e["p"]), geo_sig(e["d"], fine))
     return "%s(%s)" % (k, geo_sig(e["d"], fine))
 
